@@ -242,4 +242,64 @@ theorem parse_written_v1' (f : TzFile) (hver : f.version = .V1) (hs : BlockShape
       (validate_iff' _ (abs_times_i64 _ _ _ none hfit) (by intro r hr; cases hr)).mp t3
     exact hnc ⟨t1, t2, v1, v2, v3, v4⟩
 
+/-! ### the leap-second check without its saturating arithmetic -/
+theorem satAbs_diff_one (x : Int) (h : -4294967296 ≤ x ∧ x ≤ 4294967296) :
+    (satAbs32 (satI32 x) == 1) = true ↔ x.natAbs = 1 := by
+  unfold satAbs32 satI32 iabs
+  simp only [beq_iff_eq, I32_MAX, I32_MIN]
+  omega
+
+theorem satAbs_one (x : Int) : (satAbs32 x == 1) = true ↔ x.natAbs = 1 := by
+  unfold satAbs32 satI32 iabs
+  simp only [beq_iff_eq, I32_MAX, I32_MIN]
+  omega
+
+theorem sat_diff_ge (x : Int) :
+    decide (M.Tz.satI64 x ≥ SECONDS_PER_28_DAYS - 1) = true ↔ x ≥ 2419199 := by
+  unfold M.Tz.satI64
+  have k : SECONDS_PER_28_DAYS = 2419200 := rfl
+  simp only [decide_eq_true_eq, I64_MAX, I64_MIN, k]
+  omega
+
+theorem checkLeapPairs_cons2 (x0 x1 : LeapSecond) (r : List LeapSecond) :
+    checkLeapPairs (x0 :: x1 :: r)
+      = ((decide (M.Tz.satI64 (x1.time - x0.time) ≥ SECONDS_PER_28_DAYS - 1)
+          && satAbs32 (satI32 (x1.corr - x0.corr)) == 1) && checkLeapPairs (x1 :: r)) := rfl
+
+theorem checkLeapPairs_iff (ls : List LeapSecond) (hr : ∀ l ∈ ls, I32r l.corr) :
+    checkLeapPairs ls = true ↔ LeapPairsOk ls := by
+  induction ls with
+  | nil => simp [checkLeapPairs, LeapPairsOk]
+  | cons x0 rest ih =>
+    have ih' := ih (fun l hl => hr l (List.mem_cons_of_mem _ hl))
+    cases rest with
+    | nil => simp [checkLeapPairs, LeapPairsOk]
+    | cons x1 r2 =>
+      have h0 := hr x0 (by simp)
+      have h1 := hr x1 (by simp)
+      unfold I32r at h0 h1
+      rw [checkLeapPairs_cons2, Bool.and_eq_true, Bool.and_eq_true, sat_diff_ge,
+        satAbs_diff_one _ (by omega), ih']
+      simp only [LeapPairsOk]
+      exact ⟨fun ⟨⟨a, b⟩, c⟩ => ⟨a, b, c⟩, fun ⟨a, b, c⟩ => ⟨⟨a, b⟩, c⟩⟩
+
+/-- `validate`'s leap-second loop (saturating subtraction, saturating absolute value) accepts
+exactly the tables satisfying the plain-arithmetic constraints, for `i32` corrections -/
+theorem checkLeaps_iff' (ls : List LeapSecond) (hr : ∀ l ∈ ls, I32r l.corr) :
+    checkLeaps ls = true ↔ LeapsOk ls := by
+  unfold checkLeaps LeapsOk
+  rw [Bool.and_eq_true, checkLeapPairs_iff ls hr]
+  cases ls with
+  | nil => simp
+  | cons l0 rest =>
+    simp only [Bool.and_eq_true, decide_eq_true_eq]
+    rw [satAbs_one]
+
+theorem abs_leaps_i32 (v : Version) (ts : Nat) (b : Block) (rule : Option Rule)
+    (h : ∀ l ∈ b.leaps, TimeFits v ts l.1 ∧ I32r l.2) : ∀ l ∈ (absBlock b rule).leaps, I32r l.corr := by
+  intro l hl
+  simp only [absBlock, List.mem_map] at hl
+  obtain ⟨p, hp, rfl⟩ := hl
+  exact (h p hp).2
+
 end Chrono.Proofs.TzValid
